@@ -73,6 +73,10 @@ def items(tier):
         if not (o.get("post_insert") or o.get("backward") or o.get("reload")):
             for k in (1, 2, 3):
                 out.append((sp, dict(o, resume_from=k, pause_queries=True)))
+    # holidays inserted into backward results (logs reversed into forward reading: FINISHED ... WORKING), one at every position
+    for sp in F.rule_sensitive_specs()[:2] + [F.idle_component_spec()]:
+        for ins in range(1, 9):
+            out.append((sp, {"rule": "TSLACK", "max_time": F.seq_bound(sp) + 8, "backward": True, "rev": True, "post_insert": [ins]}))
     # a sub-project task (not configured from a file) as the only task of a component, between two worked tasks: absence steps deleted / inserted afterwards
     subc = {"tasks": [{"name": "T0", "work": 2.0}, {"name": "S1", "work": 3.0, "sub": {}}, {"name": "T2", "work": 1.0}], "links": [[0, 1, "FS"], [1, 2, "FS"]],
             "components": [{"name": "module", "tasks": [1]}, {"name": "frame", "tasks": [0, 2]}],
